@@ -60,6 +60,34 @@ pub fn tree(input: &str, n: &TN, out: &mut String) {
     }
 }
 
+/// tree with token / layout values by CONTENT (hex) instead of by offset into the caller's buffer
+fn tree_by_text(n: &TN, out: &mut String) {
+    let l = |l: &Option<&str>| l.map_or("-".to_string(), |s| hex(s.as_bytes()));
+    match n {
+        TreeNode::TermNode { token, layout } => {
+            let _ = write!(out, "(T {} {} {} {})", token.kind.0, span(&token.span), hex(token.value.as_bytes()), l(layout));
+        }
+        TreeNode::NonTermNode { prod, span: sp, children, layout } => {
+            let _ = write!(out, "(N {} {} {}", prod.0, span(sp), l(layout));
+            for c in children {
+                out.push(' ');
+                tree_by_text(c, out);
+            }
+            out.push(')');
+        }
+    }
+}
+
+fn temp_input_file(input: &str) -> std::path::PathBuf {
+    let p = std::path::PathBuf::from(format!(
+        "/verif/work/pf-{}-{:?}.txt",
+        std::process::id(),
+        std::thread::current().id()
+    ));
+    std::fs::write(&p, input.as_bytes()).unwrap();
+    p
+}
+
 fn perr(e: rustemo::Error) -> String {
     match e {
         rustemo::Error::ParseError(pe) => {
@@ -191,7 +219,38 @@ pub fn run_lr_custom(input: &str, partial: bool, mode: usize, seed: usize, prev:
     lr_result(input, p.parse(input))
 }
 
-pub fn run_lr(input: &str, partial: bool, prev: Option<&str>) -> String {
+pub fn run_lr(input: &'static str, partial: bool, prev: Option<&str>, via_file: bool) -> String {
+    if via_file {
+        // `parse_file` must give what `parse` gives on the file's content (tree with values by content, or the same error)
+        let t = tab();
+        let lexer: StringLexer<LCtx, St, Tk, TR, NREC> = StringLexer::new(t.skip_ws && t.layout.is_none(), recs());
+        let pf: &'static mut LRParser<LCtx, St, Pk, Tk, Nk, Def, _, TreeBuilder<str, Pk, Tk>, str> =
+            Box::leak(Box::new(LRParser::new(&DEF, St(0), partial, t.layout.is_some(), lexer, TreeBuilder::new())));
+        let path = temp_input_file(input);
+        let by_file = match pf.parse_file(&path) {
+            Ok(n) => {
+                let mut s = String::from("ok ");
+                tree_by_text(&n, &mut s);
+                s
+            }
+            Err(e) => perr(e),
+        };
+        let _ = std::fs::remove_file(&path);
+        let lexer2: StringLexer<LCtx, St, Tk, TR, NREC> = StringLexer::new(t.skip_ws && t.layout.is_none(), recs());
+        let p2: LRParser<LCtx, St, Pk, Tk, Nk, Def, _, TreeBuilder<str, Pk, Tk>, str> =
+            LRParser::new(&DEF, St(0), partial, t.layout.is_some(), lexer2, TreeBuilder::new());
+        let by_str = match p2.parse(input) {
+            Ok(n) => {
+                let mut s = String::from("ok ");
+                tree_by_text(&n, &mut s);
+                s
+            }
+            Err(e) => perr(e),
+        };
+        if by_file != by_str {
+            return format!("ok FILE-MISMATCH parse_file={} parse={}", by_file.replace(' ', "_"), by_str.replace(' ', "_"));
+        }
+    }
     let t = tab();
     let lexer: StringLexer<LCtx, St, Tk, TR, NREC> = StringLexer::new(t.skip_ws && t.layout.is_none(), recs());
     let p: LRParser<LCtx, St, Pk, Tk, Nk, Def, _, TreeBuilder<str, Pk, Tk>, str> = LRParser::new(
@@ -217,7 +276,38 @@ pub fn run_lr(input: &str, partial: bool, prev: Option<&str>) -> String {
 }
 
 /// GLR: `ok <solutions> <ntrees printed> <tree>;<tree>...  iter=<same?> beyond=<none?>`
-pub fn run_glr(input: &str, partial: bool, max_trees: usize, prev: Option<&str>) -> String {
+pub fn run_glr(input: &'static str, partial: bool, max_trees: usize, prev: Option<&str>, via_file: bool) -> String {
+    if via_file {
+        let t = tab();
+        let first = |r: rustemo::Result<Forest<'_, str, Pk, Tk>>| -> String {
+            match r {
+                Ok(f) => match f.get_first_tree() {
+                    Some(tr) => {
+                        let mut b = TreeBuilder::new();
+                        let tn: TN = tr.build::<_, St>(&mut b);
+                        let mut s = String::from("ok ");
+                        tree_by_text(&tn, &mut s);
+                        s
+                    }
+                    None => "ok none".into(),
+                },
+                Err(e) => perr(e),
+            }
+        };
+        let lexer: StringLexer<GCtx, St, Tk, TR, NREC> = StringLexer::new(t.skip_ws && t.layout.is_none(), recs());
+        let gf: &'static mut GlrParser<St, _, Pk, Tk, Nk, Def, str, TreeBuilder<str, Pk, Tk>> =
+            Box::leak(Box::new(GlrParser::new(&DEF, partial, t.layout.is_some(), lexer)));
+        let path = temp_input_file(input);
+        let by_file = first(gf.parse_file(&path));
+        let _ = std::fs::remove_file(&path);
+        let lexer2: StringLexer<GCtx, St, Tk, TR, NREC> = StringLexer::new(t.skip_ws && t.layout.is_none(), recs());
+        let g2: GlrParser<St, _, Pk, Tk, Nk, Def, str, TreeBuilder<str, Pk, Tk>> =
+            GlrParser::new(&DEF, partial, t.layout.is_some(), lexer2);
+        let by_str = first(g2.parse(input));
+        if by_file != by_str {
+            return format!("ok FILE-MISMATCH parse_file={} parse={}", by_file.replace(' ', "_"), by_str.replace(' ', "_"));
+        }
+    }
     let t = tab();
     let lexer: StringLexer<GCtx, St, Tk, TR, NREC> = StringLexer::new(t.skip_ws && t.layout.is_none(), recs());
     let g: GlrParser<St, _, Pk, Tk, Nk, Def, str, TreeBuilder<str, Pk, Tk>> =
